@@ -121,7 +121,7 @@ pub struct Object {
 impl FromMeta<'_> for Object {
     fn from_meta(meta: &Sp<Meta>) -> Result<Self, FromMetaError<'_>> {
         meta.parse_object(|m| Ok(Object {
-            layer: m.expect_renamed_field::<i32>("unknown", "layer")? as u16,
+            layer: m.expect_renamed_field::<u16>("unknown", "layer")?,
             pos: m.expect_field("pos")?,
             size: m.expect_field("size")?,
             quads: m.expect_field("quads")?,
@@ -165,14 +165,14 @@ impl FromMeta<'_> for Quad {
     fn from_meta(meta: &Sp<Meta>) -> Result<Self, FromMetaError<'_>> {
         meta.parse_variant()?
             .variant("rect", |m| Ok(Quad {
-                anm_script: m.expect_field::<i32>("anm_script")? as u16,
+                anm_script: m.expect_field::<u16>("anm_script")?,
                 extra: QuadExtra::Rect {
                     pos: m.expect_field("pos")?,
                     size: m.expect_field("size")?,
                 },
             }))
             .variant("strip", |m| Ok(Quad {
-                anm_script: m.expect_field::<i32>("anm_script")? as u16,
+                anm_script: m.expect_field::<u16>("anm_script")?,
                 extra: QuadExtra::Strip {
                     start: m.expect_field("start")?,
                     end: m.expect_field("end")?,
@@ -218,7 +218,7 @@ impl FromMeta<'_> for Instance {
     fn from_meta(meta: &Sp<Meta>) -> Result<Self, FromMetaError<'_>> {
         meta.parse_any_variant(|ident, meta| Ok(Instance {
             object: ident.clone(),
-            unknown: meta.get_field::<i32>("unknown")?.unwrap_or(256) as u16,
+            unknown: meta.get_field::<u16>("unknown")?.unwrap_or(256),
             pos: meta.expect_field("pos")?,
         }))
     }
@@ -431,8 +431,13 @@ fn write_std(
 ) -> WriteResult {
     let start_pos = f.pos()?;
 
+    // (an object index of 0xffff marks the end of the instance list, so there can be at most 0xffff objects)
+    if std.objects.len() > 0xffff {
+        return Err(emitter.emit(error!("too many objects ({}) to be stored in this format", std.objects.len())));
+    }
+    let num_quads = std.objects.values().map(|x| x.quads.len()).sum::<usize>();
     f.write_u16(std.objects.len() as u16)?;
-    f.write_u16(std.objects.values().map(|x| x.quads.len()).sum::<usize>() as u16)?;
+    f.write_u16(llir::header_field(emitter, "number of quads", num_quads as i64)?)?;
 
     let instances_offset_pos = f.pos()?;
     f.write_u32(0)?;
